@@ -29,6 +29,8 @@
    Mode "gz": gzip requests decompress through pooled *gzip.Reader OBJECTS (zr, zobj, poolZ): owned from the pool Get
    to the deferred Put, dropped when Reset fails on a bad header; the case is the three-step sequence good request,
    bad-header request, two overlapping requests (PoolHoldsEachObjectOnce, ReaderIsMine; switch gz_double_put).
+   Mode "hdr": one request x Content-Type x the plugin's `meta` option: the lines handed over are a function of the body
+   bytes alone (mechanism M_BodyOnlyReadByBulk; switch meta_drains_form).
    Mode "mes": one request x the pipeline's max_event_size: the bytes handed to In are the line's bytes whatever the
    limit is -- the limit belongs to Pipeline.In (mechanism M_CarryUnbounded; switch carry_capped).
    Mode "gzone": one gzip request whose COMPRESSED size (the announced Content-Length) is a dimension of its own:
@@ -49,7 +51,7 @@
    switch of mechanism M_PutAfterLastIn (Puts right after the read loop, before the tail is handed over). *)
 EXTENDS Integers, Sequences, FiniteSets, TLC, Json
 
-CONSTANTS Mode,          \* "serial" | "conc" | "gz" | "gzone" | "mes"
+CONSTANTS Mode,          \* "serial" | "conc" | "gz" | "gzone" | "mes" | "hdr"
           MaxLen,        \* serial: bound on the body length of a single-request case
           SeqLen,        \* serial: bound on the first body's length of a two-request case (second is shorter)
           ConcLen,       \* conc: bound on the body length of each of the two requests
@@ -129,20 +131,28 @@ ErrEnds == {"err", "ueof", "ueofd"}          \* the body was NOT delivered compl
 \* zr:      a (0, nil) read before every other read
 EndsFor(n, ends) == IF n = 0 THEN ends \ {"with", "ueofd"} ELSE ends   \* (n,err) on the last data read needs a data read
 
-Req(b, c, e, z) == [body |-> b, sizes |-> c, end |-> e, zr |-> z, gz |-> FALSE, bad |-> FALSE, clen |-> 0, mes |-> 0]
+Req(b, c, e, z) == [body |-> b, sizes |-> c, end |-> e, zr |-> z, gz |-> FALSE, bad |-> FALSE, clen |-> 0, mes |-> 0, ctype |-> "none", meta |-> FALSE]
 \* a request with Content-Encoding: gzip; bad = its payload does not start with a valid gzip header.
 \* (named abstraction: compression itself is the identity; what is modelled of gzip is the stateful, pooled
 \*  reader object: Reset points it to a body, Read delivers that body's bytes from the object's position)
-ReqG(b, c, bad) == [body |-> b, sizes |-> c, end |-> "after", zr |-> FALSE, gz |-> TRUE, bad |-> bad, clen |-> 0, mes |-> 0]
+ReqG(b, c, bad) == [body |-> b, sizes |-> c, end |-> "after", zr |-> FALSE, gz |-> TRUE, bad |-> bad, clen |-> 0, mes |-> 0, ctype |-> "none", meta |-> FALSE]
 \* ... whose COMPRESSED payload has cl bytes, announced as Content-Length (0 = not announced).  The ratio between the
 \* decompressed body and cl is arbitrary (1 .. Len(b)): very repetitive logs inflate hundreds of times.
 \* Mechanism M_GzipStreamUnbounded: the stream handed to processBulk is the WHOLE decompressed body whatever that ratio.
-ReqGC(b, c, cl) == [body |-> b, sizes |-> c, end |-> "after", zr |-> FALSE, gz |-> TRUE, bad |-> FALSE, clen |-> cl, mes |-> 0]
+ReqGC(b, c, cl) == [body |-> b, sizes |-> c, end |-> "after", zr |-> FALSE, gz |-> TRUE, bad |-> FALSE, clen |-> cl, mes |-> 0, ctype |-> "none", meta |-> FALSE]
 \* a request served by a pipeline whose settings say max_event_size = m (0 = unlimited).  The limit belongs to
 \* Pipeline.In (which drops or cuts over-long events and counts them), not to the http input:
 \* mechanism M_CarryUnbounded: the bytes handed to In are the line's bytes whatever max_event_size is.
-ReqM(b, c, e, m) == [body |-> b, sizes |-> c, end |-> e, zr |-> FALSE, gz |-> FALSE, bad |-> FALSE, clen |-> 0, mes |-> m]
+ReqM(b, c, e, m) == [body |-> b, sizes |-> c, end |-> e, zr |-> FALSE, gz |-> FALSE, bad |-> FALSE, clen |-> 0, mes |-> m, ctype |-> "none", meta |-> FALSE]
 MesSet == 0..4
+\* a request with a Content-Type header, served by a plugin with / without the `meta` option (templates over the
+\* request's params, headers, remote address).  Mechanism M_BodyOnlyReadByBulk: nothing before processBulk consumes
+\* r.Body, so the lines handed over are a function of the body bytes alone.
+CTypes == {"none", "json", "text", "form", "multipart"}
+ReqH(b, c, e, ct, mt) == [body |-> b, sizes |-> c, end |-> e, zr |-> FALSE, gz |-> FALSE, bad |-> FALSE, clen |-> 0, mes |-> 0,
+                          ctype |-> ct, meta |-> mt]
+\* mutant meta_drains_form: rendering the meta parses the form, which reads a urlencoded body to its end
+Drained(r) == Mutant = "meta_drains_form" /\ r.meta /\ r.ctype = "form"
 LimitR == 2      \* mutant gz_limit_clean_eof: the decompressed stream ends, with a clean EOF, after clen * LimitR bytes
 Bodies(n, syms) == [1..n -> syms \cup {NL}]
 MinSym == CHOOSE x \in Symbols : \A y \in Symbols : x <= y
@@ -151,6 +161,7 @@ MinSym == CHOOSE x \in Symbols : \A y \in Symbols : x <= y
 \* conc:   two requests over disjoint alphabets
 \* gz:     the three-step sequence: a good gzip request, a gzip request with a bad header, then two overlapping
 \*         gzip requests over disjoint alphabets (requests 1, 2 run one after the other; 3 and 4 interleave)
+\* hdr:    one request x Content-Type x meta configured or not
 \* mes:    one request x the pipeline's max_event_size (0 = unlimited, 1..4)
 \* gzone:  one gzip request, every body x split x compressed size (Content-Length) from 0 (not announced) to Len(body)
 \* (written with quantifiers so that TLC enumerates the cases instead of building one big set)
@@ -169,6 +180,9 @@ CaseInit ==
            \E n2 \in 0..ConcLen : \E b2 \in Bodies(n2, Symbols \ {MinSym}) : \E c2 \in Comps[n2] :
              \E e2 \in EndsFor(n2, {"with", "after"}) :
                cs = << Req(b, c, e, FALSE), Req(b2, c2, e2, FALSE) >>
+    ELSE IF Mode = "hdr"
+    THEN \E n \in 0..MaxLen : \E b \in Bodies(n, Symbols) : \E c \in Comps[n] : \E e \in EndsFor(n, {"with", "after"}) :
+           \E ct \in CTypes : \E mt \in BOOLEAN : cs = << ReqH(b, c, e, ct, mt) >>
     ELSE IF Mode = "mes"
     THEN \E n \in 0..MaxLen : \E b \in Bodies(n, Symbols) : \E c \in Comps[n] : \E e \in EndsFor(n, {"with", "after"}) :
            \E m \in MesSet : cs = << ReqM(b, c, e, m) >>
@@ -248,7 +262,7 @@ Init ==
 RemoveAt(s, j) == SubSeq(s, 1, j - 1) \o SubSeq(s, j + 1, Len(s))
 \* which pooled item a Get may return: serial = the one put last (or none if empty); conc = any, or none
 \* (gz: the buffer pools behave as in serial -- their nondeterminism is explored by conc --, the gzip reader pool: any, or none)
-PoolChoices(pool) == IF Mode \in {"serial", "gz", "gzone", "mes"} THEN (IF pool = <<>> THEN {0} ELSE {Len(pool)}) ELSE 0..Len(pool)
+PoolChoices(pool) == IF Mode \in {"serial", "gz", "gzone", "mes", "hdr"} THEN (IF pool = <<>> THEN {0} ELSE {Len(pool)}) ELSE 0..Len(pool)
 PoolChoicesZ(pool) == 0..Len(pool)
 
 \* order of the steps after the read loop.
@@ -372,7 +386,7 @@ Read(i) ==
                       /\ pc' = [pc EXCEPT ![i] = "chunk"]
                       /\ UNCHANGED res
        ELSE LET s == Script(cs[i])[k[i]] IN
-            IF s.n = 0 /\ EofLike(s.e)
+            IF Drained(cs[i]) \/ (s.n = 0 /\ EofLike(s.e))
               THEN /\ pc' = [pc EXCEPT ![i] = AfterLoop(i)]                         \* break
                    /\ UNCHANGED <<memR, rn, k, off, res, zobj>>
             ELSE IF s.e # "nil" /\ ~EofLike(s.e)
